@@ -649,7 +649,7 @@ Rec ==
       err |-> \E i \in Inst : err'[i] /\ ~err[i],
       iso |-> kind = "Deliver" /\ inst[a[3]][a[2]] = "ISOLATED",
       snapchg |-> kind = "Deliver" /\ LocalVarsP(a[3]) # LocalVars(a[3]),
-      user |-> FALSE, nonadm |-> FALSE, procchg |-> FALSE]
+      user |-> FALSE, nonadm |-> FALSE, procchg |-> FALSE, hang |-> FALSE]
 
 QueuesEmpty(qq, al) == \A i, j \in Inst : al[i] => qq[i][j] = <<>>
 Disturbing == act'[1] \in {"Crash", "Boot", "Cut", "Heal", "User", "EndSync", "Conflict", "Release"}
